@@ -33,6 +33,7 @@ type VerifyOpts struct {
 	ExtraPost  func(f *Frame, exit *State, results []SVal) []namedTerm
 	ExtraPre   func(f *Frame, st *State) []*Term
 	NoContract bool // ignore the function's own contract clauses except nopanic-relevant loops
+	Sweep      bool // safety sweep: standing preconditions (non-nil pointer receiver, non-nil function parameters)
 }
 
 type namedTerm struct {
@@ -59,7 +60,7 @@ func (e *Engine) VerifyFunc(fn *ssa.Function, opts VerifyOpts) (res *FuncResult)
 		}
 		res.Obligs = ctx.obligs
 	}()
-	ct := e.contracts.Funcs[ctx.fnKey]
+	ct := e.contractFor(fn)
 	f := &Frame{ctx: ctx, fn: fn, tmap: TMap{}, vals: map[ssa.Value]Val{}, contract: ct, curKey: map[*ssa.Range]*Term{}, ghosts: map[string]SVal{}}
 	f.checkFrame = opts.FrameFresh || (ct != nil && ct.Fresh)
 	res.Frame = f
@@ -86,6 +87,45 @@ func (e *Engine) VerifyFunc(fn *ssa.Function, opts VerifyOpts) (res *FuncResult)
 		ctx.assume(Neq(v, IntLit(0)))
 	}
 	f.entry = st
+	if opts.Sweep {
+		if recv := fn.Signature.Recv(); recv != nil && len(fn.Params) > 0 {
+			if _, isPtr := f.subst(recv.Type()).Underlying().(*types.Pointer); isPtr {
+				if rt, ok := f.vals[fn.Params[0]].(*Term); ok {
+					ctx.assume(Neq(rt, IntLit(0)))
+					ctx.trusted["standing precondition: pointer receivers are non-nil (checked at every call site inside the swept packages)"] = true
+				}
+			}
+		}
+		for _, p := range fn.Params {
+			pt := f.subst(p.Type())
+			if _, isSig := pt.Underlying().(*types.Signature); isSig {
+				ctx.assume(Neq(f.vals[p].(*Term), IntLit(0)))
+				ctx.trusted["standing precondition: function-typed parameters are non-nil"] = true
+			}
+			if sl, isSl := pt.Underlying().(*types.Slice); isSl {
+				if _, isSig := sl.Elem().Underlying().(*types.Signature); isSig {
+					s := f.vals[p].(*Term)
+					E := ctx.comp(st, f.eName(sl.Elem()), ArrS(SInt, ArrS(SInt, SInt)))
+					j := Atom("j!q0", SInt)
+					el := Select(Select(E, SlcBase(s)), Slot(SlcOff(s), j))
+					ctx.assume(Forall([]*Term{j}, Implies(And(Le(IntLit(0), j), Lt(j, SlcLen(s))), Neq(el, IntLit(0))), []*Term{el}))
+					ctx.trusted["standing precondition: option slices (variadic functional options) contain no nil function"] = true
+				}
+			}
+			if tmpl := standingInvariant(e.sorts.typeName(pt)); tmpl != "" {
+				src := strings.ReplaceAll(tmpl, "$p", p.Name())
+				ex, err := ParseSpecExpr(src)
+				if err != nil {
+					panic(specErr{err.Error()})
+				}
+				se := f.specEnv(st, st)
+				se.positive = true
+				se.site = "pre"
+				ctx.assume(se.evalBool(ex))
+				ctx.trusted["standing IR invariant assumed at entry: "+tmpl+" (established by NewSchema / the parsers / orderedmap.New)"] = true
+			}
+		}
+	}
 	entrySnap := func() { f.entry = &State{heap: copyHeap(st.heap), locals: map[*ssa.Alloc]*Term{}, alloc: st.alloc, base: st.base} }
 	// preconditions
 	if ct != nil {
@@ -106,6 +146,7 @@ func (e *Engine) VerifyFunc(fn *ssa.Function, opts VerifyOpts) (res *FuncResult)
 			f.ghosts[g.Name] = v
 		}
 	}
+	f.bindParamNames(ct)
 	if ct != nil && (ct.ModifiesSet || ct.Fresh) {
 		f.modLocs = f.evalModLocs(ct, st)
 		f.checkFrame = true
@@ -200,7 +241,12 @@ func (f *Frame) contractCall(st *State, r *Term, target *ssa.Function, tmap TMap
 			cf.vals[fv] = bindings[i]
 		}
 	}
-	pre := &State{heap: copyHeap(st.heap), locals: map[*ssa.Alloc]*Term{}, alloc: st.alloc, base: st.base}
+	f.havocClosureCells(st, args)
+	preLocals := make(map[*ssa.Alloc]*Term, len(st.locals))
+	for k, v := range st.locals {
+		preLocals[k] = v
+	}
+	pre := &State{heap: copyHeap(st.heap), locals: preLocals, alloc: st.alloc, base: st.base}
 	cf.entry = pre
 	calleeShort := shortKey(ct.Key)
 	presite := fmt.Sprintf("call%dpre", siteN)
@@ -339,4 +385,17 @@ func (f *Frame) useActiveWitnesses(se *specEnv, st *State) {
 	we.loop, we.lenv = p.activeWitLoop, p.activeWitEnv
 	we.presite = "pre"
 	se.witEnv = we
+}
+
+// standingInvariant: IR well-formedness assumed for parameters of the given type in the safety sweep.
+func standingInvariant(typeName string) string {
+	switch {
+	case typeName == "*ast.Schema":
+		return "$p != nil && wf($p.Objects)"
+	case typeName == "ast.Schemas" || typeName == "[]*ast.Schema":
+		return "forall j: int :: 0 <= j && j < len($p) ==> $p[j] != nil && wf($p[j].Objects)"
+	case strings.HasPrefix(typeName, "*orderedmap.Map["):
+		return "$p != nil ==> wf($p)"
+	}
+	return ""
 }
